@@ -14,6 +14,7 @@ import (
 	"flag"
 	"fmt"
 	"io"
+	"math/big"
 	"os"
 	"runtime"
 	"strings"
@@ -56,6 +57,8 @@ type Case struct {
 	Ops []Op   `json:"ops"`
 	// IDMap, when set, maps the id numbers of the ops to entries of the id value table (model id = the entry's number)
 	IDMap []int `json:"id_map,omitempty"`
+	// Base: the instant the case's clock starts from (see baseInstants; "" = the Unix epoch)
+	Base string `json:"base,omitempty"`
 	// AllDone: every call of the history is made with an already cancelled context
 	AllDone bool `json:"all_ctx_done,omitempty"`
 	// AllCtx: every call is made with this kind of context
@@ -97,6 +100,8 @@ type world struct {
 	sentStale    bool
 	curSender    int         // tag of the Sender currently assigned to Filter.Broker (0 = none)
 	nowOffset    int64       // the NowFunc currently assigned returns now + nowOffset
+	baseIsZero   bool        // base really is the zero time.Time
+	base         time.Time   // the instant the harness clock starts from is base + 1000 ns (default: the Unix epoch)
 	now          int64       // atomic
 	inputs       []inputEv   // every event handed to Process, with what it looked like then
 	kept         []keptSlice // every slice handed to ComposeFrom: the very slice (no copy) and what it held at that moment
@@ -304,27 +309,61 @@ func (s *sender) Send(ctx context.Context, t el.EventType, p interface{}) (el.St
 
 // ---------- observations ----------
 type Grp struct {
-	ID  int   `json:"id"`
-	N   int   `json:"n"`
-	Exp int64 `json:"exp"`
+	ID  int       `json:"id"`
+	N   int       `json:"n"`
+	Exp int64     `json:"exp"` // nanoseconds since 1970 (display only: wraps outside 1678..2262)
+	T   time.Time `json:"exp_time"`
 }
 type Obs struct {
-	Now          int64    `json:"now"`
-	Exp          int64    `json:"exp"`    // Filter.Expiration as last set by the harness
-	Broker       bool     `json:"broker"` // Filter.Broker set at the time of the call
-	SentStale    bool     `json:"sent_stale,omitempty"`
-	Res          int      `json:"res"`
-	Comp         []pair   `json:"comp,omitempty"`
-	Compose      [][]pair `json:"compose,omitempty"`
-	Sent         [][]pair `json:"sent,omitempty"`
-	SentGateable bool     `json:"sent_gateable,omitempty"`
-	Gated        []Grp    `json:"gated,omitempty"`
-	IndexOK      bool     `json:"index_ok"`
-	Mutated      bool     `json:"composite_mutated,omitempty"`
+	Now          int64     `json:"now"` // harness clock in ns relative to the case's base instant
+	NowT         time.Time `json:"now_time"`
+	Exp          int64     `json:"exp"`    // Filter.Expiration as last set by the harness
+	Broker       bool      `json:"broker"` // Filter.Broker set at the time of the call
+	SentStale    bool      `json:"sent_stale,omitempty"`
+	Res          int       `json:"res"`
+	Comp         []pair    `json:"comp,omitempty"`
+	Compose      [][]pair  `json:"compose,omitempty"`
+	Sent         [][]pair  `json:"sent,omitempty"`
+	SentGateable bool      `json:"sent_gateable,omitempty"`
+	Gated        []Grp     `json:"gated,omitempty"`
+	IndexOK      bool      `json:"index_ok"`
+	Mutated      bool      `json:"composite_mutated,omitempty"`
+}
+
+// the named instants a case's clock can start from: the zero time.Time, year 1, the edges of what fits into int64 nanoseconds since 1970
+// (1677-09-21 .. 2262-04-11), and the far future
+var baseInstants = map[string]time.Time{
+	"":      time.Unix(0, 0),
+	"zero":  {},
+	"y1":    time.Date(1, 6, 1, 0, 0, 0, 0, time.UTC),
+	"y1677": time.Date(1677, 1, 1, 0, 0, 0, 0, time.UTC),
+	"y1678": time.Date(1678, 1, 1, 0, 0, 0, 0, time.UTC),
+	"y2261": time.Date(2261, 12, 31, 0, 0, 0, 0, time.UTC),
+	"y2263": time.Date(2263, 1, 1, 0, 0, 0, 0, time.UTC),
+	"y9999": time.Date(9999, 12, 31, 23, 0, 0, 0, time.UTC),
+}
+
+// clock: the harness clock as an instant (never through int64 nanoseconds since 1970, which cannot hold most of these)
+func (w *world) clock(off int64) time.Time {
+	b := w.base
+	if b.IsZero() && !w.baseIsZero {
+		b = time.Unix(0, 0)
+	}
+	return b.Add(time.Duration(atomic.LoadInt64(&w.now) + off))
+}
+
+// zTime prints an instant as a Z literal: nanoseconds since the Unix epoch, exactly (Z has no overflow)
+func zTime(t time.Time) string {
+	z := new(big.Int).Mul(big.NewInt(t.Unix()), big.NewInt(1000000000))
+	z.Add(z, big.NewInt(int64(t.Nanosecond())))
+	if z.Sign() < 0 {
+		return "(" + z.String() + ")%Z"
+	}
+	return z.String() + "%Z"
 }
 
 func newFilter(w *world) *gated.Filter {
-	f := &gated.Filter{Expiration: time.Duration(w.cfg.Exp), NowFunc: func() time.Time { return time.Unix(0, atomic.LoadInt64(&w.now)) }}
+	f := &gated.Filter{Expiration: time.Duration(w.cfg.Exp), NowFunc: func() time.Time { return w.clock(0) }}
 	if w.nowNil {
 		f.NowFunc = nil
 	}
@@ -340,7 +379,7 @@ func snapshot(f *gated.Filter) ([]Grp, bool) {
 	ok := idx == len(gs)
 	out := make([]Grp, 0, len(gs))
 	for _, g := range gs {
-		out = append(out, Grp{idNum(g.ID), g.Events, g.Exp.UnixNano()})
+		out = append(out, Grp{ID: idNum(g.ID), N: g.Events, Exp: g.Exp.UnixNano(), T: g.Exp})
 		if !g.Indexed {
 			ok = false
 		}
@@ -471,7 +510,7 @@ func twinStep(f2 *gated.Filter, w *world, n int) {
 }
 
 func execCaseInner(c Case, at *int32) (calls []Op, nums []int, obs []Obs, panicked interface{}) {
-	w := &world{cfg: c.Cfg, now: 1000}
+	w := &world{cfg: c.Cfg, now: 1000, base: baseInstants[c.Base], baseIsZero: c.Base == "zero"}
 	cur = w
 	f := newFilter(w)
 	var f2 *gated.Filter
@@ -506,7 +545,7 @@ func execCaseInner(c Case, at *int32) (calls []Op, nums []int, obs []Obs, panick
 			// NowFunc is an exported field: a new function, op.D ns ahead of the harness clock
 			off := op.D
 			w.nowOffset = off
-			f.NowFunc = func() time.Time { return time.Unix(0, atomic.LoadInt64(&w.now)+off) }
+			f.NowFunc = func() time.Time { return w.clock(off) }
 			continue
 		}
 		if op.K == "setexp" {
@@ -528,7 +567,7 @@ func execCaseInner(c Case, at *int32) (calls []Op, nums []int, obs []Obs, panick
 		w.sentStale = false
 		brokerSet := w.curSender != 0
 		w.mu.Unlock()
-		o := Obs{Now: atomic.LoadInt64(&w.now) + w.nowOffset, Exp: curExp, Broker: brokerSet}
+		o := Obs{Now: atomic.LoadInt64(&w.now) + w.nowOffset, NowT: w.clock(w.nowOffset), Exp: curExp, Broker: brokerSet}
 		if op.K == "ev" && c.IDMap != nil && op.ID < len(c.IDMap) {
 			op.ID = c.IDMap[op.ID]
 		}
@@ -554,9 +593,9 @@ func execCaseInner(c Case, at *int32) (calls []Op, nums []int, obs []Obs, panick
 			}
 			switch op.Created {
 			case 1:
-				ev.CreatedAt = time.Unix(0, atomic.LoadInt64(&w.now)).Add(1000 * time.Hour)
+				ev.CreatedAt = w.clock(0).Add(1000 * time.Hour)
 			case 2:
-				ev.CreatedAt = time.Unix(0, atomic.LoadInt64(&w.now)).Add(-1000 * time.Hour)
+				ev.CreatedAt = w.clock(0).Add(-1000 * time.Hour)
 			}
 			w.input(ev)
 			out, err := f.Process(ctx, ev)
@@ -590,7 +629,7 @@ func execCaseInner(c Case, at *int32) (calls []Op, nums []int, obs []Obs, panick
 					o.Res = 3
 				}
 			default:
-				if got := f.Now(); got.UnixNano() != atomic.LoadInt64(&w.now)+w.nowOffset {
+				if got := f.Now(); !got.Equal(w.clock(w.nowOffset)) {
 					o.Res = 3
 				}
 			}
@@ -735,7 +774,7 @@ func execBlocked(c Case) (o CObs, panicked interface{}) {
 	w := &world{cfg: c.Cfg, now: 1000}
 	cur = w
 	bs := &blockSender{inner: &sender{w, 0}, entered: make(chan struct{}), release: make(chan struct{})}
-	f := &gated.Filter{Expiration: time.Duration(w.cfg.Exp), Broker: bs, NowFunc: func() time.Time { return time.Unix(0, atomic.LoadInt64(&w.now)) }}
+	f := &gated.Filter{Expiration: time.Duration(w.cfg.Exp), Broker: bs, NowFunc: func() time.Time { return w.clock(0) }}
 	ctx := context.Background()
 	var emu sync.Mutex
 	callsOK := true
@@ -843,7 +882,7 @@ func execRendez(c Case) (o CObs, panicked interface{}) {
 				runtime.Gosched()
 			}
 		}
-		return time.Unix(0, atomic.LoadInt64(&w.now))
+		return w.clock(0)
 	}
 	ctx := context.Background()
 	var emu sync.Mutex
@@ -1014,7 +1053,7 @@ func runReentry(watchdog time.Duration) []ReentryResult {
 			if err != nil {
 				panic(err)
 			}
-			f := &gated.Filter{Broker: b, Expiration: time.Duration(w.cfg.Exp), NowFunc: func() time.Time { return time.Unix(0, atomic.LoadInt64(&w.now)) }}
+			f := &gated.Filter{Broker: b, Expiration: time.Duration(w.cfg.Exp), NowFunc: func() time.Time { return w.clock(0) }}
 			tap := &passNode{typ: el.NodeTypeFilter}
 			nodes := map[el.NodeID]el.Node{"tap": tap, "gate": f, "fmt": &passNode{typ: el.NodeTypeFormatter}, "sink": &passNode{typ: el.NodeTypeSink}}
 			for id, n := range nodes {
@@ -1095,7 +1134,11 @@ func pairssLit(pss [][]pair) string {
 func gatedLit(gs []Grp) string {
 	s := make([]string, len(gs))
 	for i, g := range gs {
-		s[i] = fmt.Sprintf("(%s,(%s,%s))", hc.N(g.ID), hc.N(g.N), hc.Z(g.Exp))
+		t := g.T
+		if t.IsZero() && g.Exp != 0 {
+			t = time.Unix(0, g.Exp)
+		}
+		s[i] = fmt.Sprintf("(%s,(%s,%s))", hc.N(g.ID), hc.N(g.N), zTime(t))
 	}
 	return hc.List(s)
 }
@@ -1117,7 +1160,7 @@ func hopLit(op Op, n int) string {
 	return "HClose"
 }
 func obsLit(o Obs) string {
-	return fmt.Sprintf("Build_gobs %s %s %s %s %s %s %s %s %s %s %s %s", hc.Z(o.Now), hc.Z(o.Exp), hc.B(o.Broker), hc.N(o.Res), pairsLit(o.Comp), pairssLit(o.Compose), pairssLit(o.Sent),
+	return fmt.Sprintf("Build_gobs %s %s %s %s %s %s %s %s %s %s %s %s", zTime(o.NowT), hc.Z(o.Exp), hc.B(o.Broker), hc.N(o.Res), pairsLit(o.Comp), pairssLit(o.Compose), pairssLit(o.Sent),
 		hc.B(o.SentGateable), gatedLit(o.Gated), hc.B(o.IndexOK), hc.B(o.SentStale), hc.B(o.Mutated))
 }
 func cfgLit(c Cfg) string {
@@ -1548,6 +1591,24 @@ func genFields(e *emitter) {
 	}
 }
 
+// genExtremes: extreme durations and instants.  Expiration 1 ns, 100 years, 290 years, MaxInt64/2, MaxInt64 (the "never expire" idiom) and a
+// clock starting at the zero time, year 1, either edge of what int64 nanoseconds since 1970 can hold (1677/1678, 2261/2263) and year 9999,
+// moving in small steps: a group's expiry is the instant Now() + Expiration exactly (time.Time.Add is exact over this range; the model's
+// time is Z), so nothing expires early however far the instants are from 1970.
+func genExtremes(e *emitter) {
+	const maxI = int64(^uint64(0) >> 1)
+	year := int64(365 * 24 * time.Hour)
+	for _, base := range []string{"", "zero", "y1", "y1677", "y1678", "y2261", "y2263", "y9999"} {
+		for _, exp := range []int64{1, 10, 100 * year, 290 * year, maxI / 2, maxI - 1, maxI, 0} {
+			for _, broker := range []bool{true, false} {
+				ops := []Op{{K: "ev", ID: 1}, {K: "adv", D: 1}, {K: "ev", ID: 2}, {K: "ev", ID: 1}, {K: "adv", D: 1}, {K: "ev", ID: 3}, {K: "adv", D: 9}, {K: "ev", ID: 1, Flush: true},
+					{K: "adv", D: int64(time.Hour)}, {K: "ev", ID: 2}, {K: "now"}, {K: "adv", D: year}, {K: "ev", ID: 4}, {K: "flushall"}, {K: "ev", ID: 5}, {K: "close"}}
+				e.emit(Case{Gen: "extremes", Cfg: Cfg{Broker: broker, Exp: exp}, Ops: ops, Base: base})
+			}
+		}
+	}
+}
+
 func maxID(h []Op) int {
 	m := 0
 	for _, o := range h {
@@ -1870,6 +1931,7 @@ func main() {
 			genFaults(e)
 			genOrder(e)
 			genFields(e)
+			genExtremes(e)
 		case "":
 		default:
 			fmt.Fprintf(os.Stderr, "unknown mode %s\n", m)
